@@ -1,6 +1,6 @@
 // Package vsync replaces "sync" in the rewritten packages: Mutex, RWMutex, Cond, WaitGroup and Locker
 // are scheduler objects (state lives in the scheduler, keyed by address); Once, Pool and Map are the
-// real ones. Outside a controlled execution every type falls back to a real primitive kept in a side table.
+// real ones. Outside a controlled execution every type falls back to a real primitive embedded in it.
 package vsync
 
 import (
@@ -50,53 +50,19 @@ func (p *Pool) Put(x any) {
 // Locker is sync.Locker.
 type Locker = sync.Locker
 
-// fallback real primitives for use outside controlled executions (setup code of harnesses, init).
-var (
-	fbMu sync.Mutex
-	fbM  = map[unsafe.Pointer]*sync.Mutex{}
-	fbRW = map[unsafe.Pointer]*sync.RWMutex{}
-	fbWG = map[unsafe.Pointer]*sync.WaitGroup{}
-)
-
-func realMutex(p unsafe.Pointer) *sync.Mutex {
-	fbMu.Lock()
-	defer fbMu.Unlock()
-	m := fbM[p]
-	if m == nil {
-		m = new(sync.Mutex)
-		fbM[p] = m
-	}
-	return m
-}
-
-func realRW(p unsafe.Pointer) *sync.RWMutex {
-	fbMu.Lock()
-	defer fbMu.Unlock()
-	m := fbRW[p]
-	if m == nil {
-		m = new(sync.RWMutex)
-		fbRW[p] = m
-	}
-	return m
-}
-
-func realWG(p unsafe.Pointer) *sync.WaitGroup {
-	fbMu.Lock()
-	defer fbMu.Unlock()
-	m := fbWG[p]
-	if m == nil {
-		m = new(sync.WaitGroup)
-		fbWG[p] = m
-	}
-	return m
-}
+// Outside a controlled execution (set-up code of harnesses, sequential checks that do not need the scheduler)
+// every primitive falls back to a real one embedded in it (a side table keyed by address kept every object
+// that ever used a lock alive: 2.7 KB per history in the C11 enumeration).
 
 // Mutex is a scheduler-owned mutual exclusion lock.
-type Mutex struct{ b byte }
+type Mutex struct {
+	b  byte
+	fb sync.Mutex
+}
 
 func (m *Mutex) Lock() {
 	if !vsched.Active() {
-		realMutex(unsafe.Pointer(m)).Lock()
+		m.fb.Lock()
 		return
 	}
 	vsched.MutexLock(unsafe.Pointer(m))
@@ -104,25 +70,28 @@ func (m *Mutex) Lock() {
 
 func (m *Mutex) TryLock() bool {
 	if !vsched.Active() {
-		return realMutex(unsafe.Pointer(m)).TryLock()
+		return m.fb.TryLock()
 	}
 	return vsched.MutexTryLock(unsafe.Pointer(m))
 }
 
 func (m *Mutex) Unlock() {
 	if !vsched.Active() {
-		realMutex(unsafe.Pointer(m)).Unlock()
+		m.fb.Unlock()
 		return
 	}
 	vsched.MutexUnlock(unsafe.Pointer(m))
 }
 
 // RWMutex is a scheduler-owned reader/writer lock with writer preference.
-type RWMutex struct{ r, w byte }
+type RWMutex struct {
+	r, w byte
+	fb   sync.RWMutex
+}
 
 func (m *RWMutex) RLock() {
 	if !vsched.Active() {
-		realRW(unsafe.Pointer(m)).RLock()
+		m.fb.RLock()
 		return
 	}
 	vsched.RWRLock(unsafe.Pointer(m), unsafe.Pointer(&m.r))
@@ -130,7 +99,7 @@ func (m *RWMutex) RLock() {
 
 func (m *RWMutex) RUnlock() {
 	if !vsched.Active() {
-		realRW(unsafe.Pointer(m)).RUnlock()
+		m.fb.RUnlock()
 		return
 	}
 	vsched.RWRUnlock(unsafe.Pointer(m), unsafe.Pointer(&m.w))
@@ -138,7 +107,7 @@ func (m *RWMutex) RUnlock() {
 
 func (m *RWMutex) Lock() {
 	if !vsched.Active() {
-		realRW(unsafe.Pointer(m)).Lock()
+		m.fb.Lock()
 		return
 	}
 	vsched.RWLock(unsafe.Pointer(m), unsafe.Pointer(&m.r), unsafe.Pointer(&m.w))
@@ -146,7 +115,7 @@ func (m *RWMutex) Lock() {
 
 func (m *RWMutex) Unlock() {
 	if !vsched.Active() {
-		realRW(unsafe.Pointer(m)).Unlock()
+		m.fb.Unlock()
 		return
 	}
 	vsched.RWUnlock(unsafe.Pointer(m), unsafe.Pointer(&m.r))
@@ -199,11 +168,14 @@ func (c *Cond) Broadcast() {
 }
 
 // WaitGroup is a scheduler-owned wait group.
-type WaitGroup struct{ b byte }
+type WaitGroup struct {
+	b  byte
+	fb sync.WaitGroup
+}
 
 func (w *WaitGroup) Add(n int) {
 	if !vsched.Active() {
-		realWG(unsafe.Pointer(w)).Add(n)
+		w.fb.Add(n)
 		return
 	}
 	vsched.WGAdd(unsafe.Pointer(w), n)
@@ -213,7 +185,7 @@ func (w *WaitGroup) Done() { w.Add(-1) }
 
 func (w *WaitGroup) Wait() {
 	if !vsched.Active() {
-		realWG(unsafe.Pointer(w)).Wait()
+		w.fb.Wait()
 		return
 	}
 	vsched.WGWait(unsafe.Pointer(w))
